@@ -74,3 +74,11 @@ CLAIMED["C08"] = ("type screening of marshalled request types + provenance taint
   "path' reduces to the static type of what is marshalled plus the all-path provenance of the one field that can carry r; side channels are "
   "not claimed.",
   TRUST, "DESIGN.md §3 C08")
+CLAIMED["C09"] = ("effect/reachability query over the module call graph + provenance wiring of keyset generation, persistence and rotation ordering (edge-cut)",
+  "Decides that keyset derivation reaches no nondeterministic leaf, that start-up regenerates every stored keyset from its own stored index/fee/"
+  "active flag under the master key of the saved seed, that rotation uses index+1, persists the new keyset's own fields and switches the "
+  "active pointer only after storage recorded the deactivation, that only start-up/rotation assign the pointer and nothing deletes keysets, "
+  "that the signer serves the active keyset only, per message, and inputs are validated against all keysets with their own fee, and the "
+  "60-key 2^i structure. Right level: 'pure function of seed and indices' and 'exactly one active' are wiring facts for all configurations; "
+  "numeric agreement with NUT-02 and concurrent rotation are not claimed.",
+  TRUST, "DESIGN.md §3 C09")
